@@ -101,6 +101,7 @@ func normalizeConstructions(pk *packages.Package) int {
 			}
 			// the run of field assignments that follows
 			var adds []*ast.KeyValueExpr
+			nested := map[string]*ast.CompositeLit{}
 			j := i + 1
 			for ; j < len(list); j++ {
 				fa, ok := list[j].(*ast.AssignStmt)
@@ -110,6 +111,46 @@ func normalizeConstructions(pk *packages.Package) int {
 				se, ok := fa.Lhs[0].(*ast.SelectorExpr)
 				if !ok {
 					break
+				}
+				// p.part.f = e, part a by-value struct field: a field of the nested literal `part: T2{f: e}`
+				if inner, ok := se.X.(*ast.SelectorExpr); ok {
+					base, ok := inner.X.(*ast.Ident)
+					if !ok || info.Uses[base] != obj || mentions(fa.Rhs[0], obj) {
+						break
+					}
+					isel, ok1 := info.Selections[inner]
+					fsel, ok2 := info.Selections[se]
+					if !ok1 || !ok2 || isel.Kind() != types.FieldVal || fsel.Kind() != types.FieldVal || len(isel.Index()) != 1 || len(fsel.Index()) != 1 {
+						break
+					}
+					pt, named := isel.Obj().Type().(*types.Named)
+					if !named {
+						break
+					}
+					if _, isStruct := pt.Underlying().(*types.Struct); !isStruct {
+						break
+					}
+					key := inner.Sel.Name + "." + se.Sel.Name
+					if have[key] || (have[inner.Sel.Name] && nested[inner.Sel.Name] == nil) {
+						break
+					}
+					nl := nested[inner.Sel.Name]
+					if nl == nil {
+						tid := &ast.Ident{NamePos: inner.Sel.Pos(), Name: pt.Obj().Name()}
+						info.Uses[tid] = pt.Obj()
+						nl = &ast.CompositeLit{Type: tid, Lbrace: inner.Sel.Pos(), Rbrace: inner.Sel.End()}
+						info.Types[nl] = types.TypeAndValue{Type: pt}
+						nested[inner.Sel.Name] = nl
+						k := &ast.Ident{NamePos: inner.Sel.Pos(), Name: inner.Sel.Name}
+						info.Uses[k] = isel.Obj()
+						adds = append(adds, &ast.KeyValueExpr{Key: k, Colon: fa.TokPos, Value: nl})
+						have[inner.Sel.Name] = true
+					}
+					fk := &ast.Ident{NamePos: se.Sel.Pos(), Name: se.Sel.Name}
+					info.Uses[fk] = fsel.Obj()
+					nl.Elts = append(nl.Elts, &ast.KeyValueExpr{Key: fk, Colon: fa.TokPos, Value: fa.Rhs[0]})
+					have[key] = true
+					continue
 				}
 				base, ok := se.X.(*ast.Ident)
 				if !ok || info.Uses[base] != obj {
